@@ -65,12 +65,25 @@ def overlapping(frames: List[tuple], name: str) -> Optional[tuple]:
     return None
 
 
-def unit_result(pid: str, module: Any, variant: str, bound: int, describe: Callable[[str], str]) -> dict:
-    """Runs module.explore(variant, bound) and packs the outcome as a work-unit result of the runner."""
+def split(module: Any, variant: str, bound: Any) -> List[Any]:
+    """Work units covering module.explore(variant, bound): the default execution and one subtree per first deviation."""
+    rs = e2.roots(lambda ch: module.run(variant, ch, bound))
+    return [None] + rs
+
+
+def unit_result(pid: str, module: Any, variant: str, bound: Any, describe: Callable[[str], str], root: Any = "all") -> dict:
+    """Runs module.explore(variant, bound) - or, with `root`, one part of it (None: the default execution only; a
+    prefix: the subtree below that first deviation) - and packs the outcome as a work-unit result of the runner."""
     import re
 
     res = dict(states=0, transitions=0, executions=0, evaluations=0, distinct=[], violations=[], samples=[], caps=[])
-    results, n, capped = module.explore(variant, bound)
+    if root == "all":
+        results, n, capped = module.explore(variant, bound)
+    elif root is None:
+        out = module.run(variant, e2.Choices([]), bound)
+        results, n, capped = [([], out)], 1, False
+    else:
+        results, n, capped = module.explore(variant, bound, root=list(root))
     res["executions"] += n
     res["evaluations"] += n
     if capped:
@@ -86,7 +99,8 @@ def unit_result(pid: str, module: Any, variant: str, bound: int, describe: Calla
                      f"schedule {[re.sub(r'::[0-9a-f-]+', '', x) for x in out['schedule']]}",
                 size=out["preemptions"] * 1000 + len(taken),
                 replay=dict(engine="preempt", variant=variant, bound=bound, schedule=taken)))
-    res["samples"].append(dict(engine="sync-threads", variant=variant, preemption_bound=bound, schedules=n, distinct_outcomes=len(outcomes)))
+    if root in ("all", None):
+        res["samples"].append(dict(engine="sync-threads", variant=variant, preemption_bound=bound, schedules=n, distinct_outcomes=len(outcomes)))
     return res
 
 
